@@ -19,6 +19,7 @@ NONTRIVIAL = {
     "C05": ["C05:certified_2chain_with_gap_shown", "C05:commit_as_ancestor"],
     "C08": ["C08:vote_with_payload", "C08:commit_with_payload"],
     "C10": ["C10:jump_gt_1", "C10:advance_by_tc"],
+    "C04": ["C04:invalid_input_processed"],
 }
 
 PUPPET_DIRECTED = ["d01", "d02", "d03", "d04", "d07", "d09", "d10", "d15", "d17", "d18"]
@@ -87,6 +88,57 @@ PLANS = {
     },
 }
 
+def c17_sweep(lo, hi, shards):
+    step = (hi - lo + shards - 1) // shards
+    return [dict(J("c17", "sweep", 1, per_process=1, lo=a, hi=min(hi, a + step)), fixed_seed=1) for a in range(lo, hi, step)]
+
+
+PLANS.update({
+    "C17": {
+        "level": "exploration",
+        "rule": "quorum_threshold()/stake() of both committee types evaluated against the arithmetic oracle (3q > 2N, q <= N - f, 2q - N > f with f = floor((N-1)/3)): an exhaustive sweep of a range of total stakes with a single authority whose stake is mutated in place, plus sampled totals (all N within +-4 of 2^k and 3*2^k, and just below 2^31) distributed over 1..50 authorities in five shapes; a case class is (shape, N mod 3, size bucket)",
+        "assumptions": ["overflow-checks are on in the harness build, so a wrap-around would panic instead of passing"],
+        "exhaustive_key": "C17.swept_exhaustively",
+        "quick": c17_sweep(1, 1 << 24, 16) + [J("c17", "dist", 16, per_process=1, samples=20000)],
+        "thorough": c17_sweep(1, 1 << 31, 64) + [J("c17", "dist", 64, per_process=1, samples=200000)],
+    },
+    "C18": {
+        "level": "exploration",
+        "rule": "honestly generated key pairs: sign/verify, other digest / other key / every single-bit flip of the signature must fail, verify_batch (sizes 0..40, corrupted member at every position, three corruption kinds) must agree with individual verification; keys through base64, bincode, JSON and the node's key and committee files (node/src/config.rs Export); a case class is (clause, batch size, position / byte)",
+        "assumptions": ["keys are honestly generated (no small-order points)"],
+        "quick": [J("c18", "sig", 16, per_process=1, keys=24), J("c18", "enc", 16, per_process=1)],
+        "thorough": [J("c18", "sig", 256, per_process=2, keys=60), J("c18", "enc", 64, per_process=2, keys=400, committees=60)],
+    },
+    "C20": {
+        "level": "exploration",
+        "rule": "pairs of messages differing in exactly one bound field (block: author, round +-1 / byte-swapped / rotated, each payload element, payload order, payload length, payload-parent boundary, parent; vote/QC: block, round; timeout: round, high-QC round, swapped rounds), small-alphabet cross-kind collision search (4 digests x 7 rounds, all kinds), signature transplant across kinds, bincode round trips incl. blocks with QC+TC and 0..100 payload digests; a case class is (kind, field)",
+        "assumptions": ["a Timeout's digest binds its round and its high-QC's round, not the high-QC's hash (DESIGN.md C20 interpretation note)"],
+        "quick": [J("c20", "x", 32, per_process=2, pairs=300)],
+        "thorough": [J("c20", "x", 512, per_process=8, pairs=1000, full=200)],
+    },
+    "C09": {
+        "level": "exploration",
+        "rule": "(1) leader function of committees of 1..20 authorities built in permuted / duplicated insertion orders vs. the sorted-key round robin for rounds 0..3n, random u64 and the top of the u64 range, and once-per-window rotation; (2) always-on at every real node in puppet and cluster runs: each vote is for a block authored and validly signed by the round's leader, and no honest authority signs two proposals for one round (wire + signature-service tap), including directed races of QC/TC/timeouts at a collecting leader (d15); component case class = committee size, scenario runs are distinct by Core-event fingerprint",
+        "assumptions": ["usize is 64 bits (round as usize does not truncate)"],
+        "quick": [J("c09", "x", 16, per_process=1)] + [J("puppet", "d15", 192, per_process=8), J("puppet", "rand", 320, per_process=10), J("puppet", "d09", 48, per_process=8)] + cluster_mix(32),
+        "thorough": [J("c09", "x", 128, per_process=2, committees=300)] + [J("puppet", "d15", 8000, per_process=20), J("puppet", "rand", 20000, per_process=20), J("puppet", "d09", 2000, per_process=20)] + cluster_mix(1000),
+    },
+    "C19": {
+        "level": "exploration",
+        "rule": "(1) Aggregator vs. reference model on random streams of validly signed votes / timeouts (duplicates, several blocks per round, several rounds, cleanup interleaved, committees of 1..10 with equal / skewed / zero-stake / dominant stakes): a certificate is returned exactly at the first crossing of the quorum, with exactly the distinct authors so far, and verifies with the repository's verify and an independent ed25519 checker; (2) always-on at every real node: each assembled QC/TC is justified by valid votes/timeouts delivered to that node, crossed the quorum with its last contributor, is assembled once, and every certificate a node sends is valid and of known origin and accepted by the other real nodes",
+        "assumptions": ["votes reaching the aggregator were verified by Core (stake > 0, signature)"],
+        "quick": [J("c19", "x", 32, per_process=2)] + [J("puppet", "d15", 160, per_process=8), J("puppet", "rand", 320, per_process=10)] + cluster_mix(32),
+        "thorough": [J("c19", "x", 1024, per_process=8, streams=100)] + [J("puppet", "d15", 8000, per_process=20), J("puppet", "rand", 20000, per_process=20)] + cluster_mix(1000),
+    },
+    "C04": {
+        "level": "exploration",
+        "rule": "(1) verdict table: Block/Vote/QC/Timeout/TC::verify on by-construction valid messages and on ~55 mutation classes (every signature bit for one vote and one block per run, each signed field altered, signatures transplanted between rounds / kinds, repeated / non-member / zero-stake signers, below quorum, re-weighted committee, invalid embedded certificates) over committees of 1..10 with unequal stakes; (2) always-on at the real node in puppet runs that inject invalid variants of earlier valid messages: between the Begin and End of handling an input that is invalid by the independent checker, no state field changes and no vote / timeout / round / certificate / commit / proposal event occurs, and no valid input is rejected as invalid",
+        "assumptions": ["a QC equal to genesis in (hash, round) is accepted unverified by design"],
+        "quick": [J("c04", "x", 32, per_process=2)] + [J("puppet", "rand", 480, per_process=10)],
+        "thorough": [J("c04", "x", 512, per_process=8, committees=40)] + [J("puppet", "rand", 30000, per_process=20)],
+    },
+})
+
 
 def nontrivial(pid, res, sits):
     want = NONTRIVIAL.get(pid)
@@ -98,6 +150,12 @@ def nontrivial(pid, res, sits):
 
 # Coverage floors: (counter or situation, minimum) that the unchanged tree meets deterministically.
 FLOORS = {
+    "C17": {"quick": {"C17.evaluations": 1000000, "C17.distributions_checked": 10000}},
+    "C18": {"quick": {"C18.cases": 20000}},
+    "C20": {"quick": {"C20.cases": 100000}},
+    "C09": {"quick": {"C09.leader_evaluations": 10000, "C09.votes_checked": 5000, "C09.honest_proposals_seen": 1000}},
+    "C19": {"quick": {"C19.aggregator_cases": 20000, "C19.assembled_qcs_checked": 500, "C19.assembled_tcs_checked": 100, "C19.sent_certificates_checked": 5000}},
+    "C04": {"quick": {"C04.verdicts_checked": 20000, "C04.invalid_inputs_handled": 300}},
     "C02": {"quick": {"C02.links_ok": 1000, "sit:C02:multi_block_commit": 5, "sit:C02:commit_with_2plus_ancestors": 3, "sit:C02:first_block_round_gt_1": 3}},
     "C03": {"quick": {"C03.votes_checked": 2000, "sit:C03:second_proposal_after_vote": 5, "sit:C03:proposal_after_own_timeout": 5, "sit:C03:unsafe_extension_offered": 5, "sit:C03:vote_via_tc": 5}},
     "C05": {"quick": {"C05.commits_checked": 1000, "sit:C05:certified_2chain_with_gap_shown": 5}},
@@ -149,5 +207,38 @@ META = {
         "Links are loss-free after the heal; the fault space is sampled per run (enumeration over node x start x length happens across seeds).",
     ),
 }
+
+META.update({
+    "C03": M("puppet", "online hook events checked offline against an independent voting-rule predicate; wire and signing-service taps as cross-checks",
+             "Held on the executions produced: every vote event of every real node is checked (one per round, strictly increasing, none after own timeout of that round, safe extension per an independent predicate on the exact proposal voted) in puppet runs that deliberately offer the rejecting branches (second proposal after a vote, proposal after own timeout on the direct / sync-resumed / payload-resumed paths, gap without TC, TC of the wrong round, TC reporting a higher QC, qc.round >= round, stale and far-future rounds) and in cluster runs. Cross-checked against validly signed votes seen on the wire and every signature made by the signing service.",
+             "Puppet inputs are any validly signed history (more than f 'faulty' keys), which is what a single node's local rule must withstand. Sampling of scripts and interleavings, not coverage."),
+    "C04": M("component + puppet", "by-construction verdict table for the five verify functions; begin/end state-snapshot non-interference monitor at the real node",
+             "Verify functions are driven with messages whose validity is known from how they were built; at the real node every handled input that the independent checker classifies invalid must leave the state snapshot unchanged and cause no action event. Held on the cases generated.",
+             "Expected verdicts come from construction plus an independent ed25519/stake checker; the twin-run comparison of DESIGN.md C04-2 is replaced by the begin/end snapshot form (Appendix F fallback)."),
+    "C05": M("puppet", "offline justification monitor: commit events vs. blocks and certificates delivered to the node before them",
+             "Every commit of every real node must be justified by a consecutive-round pair among blocks it had been shown and a valid QC for the second block among certificates it had been shown or assembled; runs include certified 2-chains with gaps at either position, certified-never-extended blocks and QCs carried only by timeouts.",
+             "Permissive in the safe direction (any delivered QC counts). Puppet histories keep all certified consecutive pairs on one chain."),
+    "C08": M("puppet", "offline order monitor over store-write, vote and commit events with one global sequence counter",
+             "At every vote for a foreign block and every commit, each payload digest must have an earlier store-write on that node's own store; payloads are present, partially missing, arriving one by one in any order, arriving after the node's timeout, or never arriving.",
+             "Consensus-only nodes (the harness plays the mempool by writing batches into the node's store); full-node batch fetching is C13's part."),
+    "C09": M("component + puppet + cluster", "reference-model comparison of the leader function; offline trace monitors for votes-for-leader-only and honest non-equivocation",
+             "Leader function compared with an independent model over committees, insertion orders and extreme rounds; at every real node each vote must be for a validly signed block of the round's leader and no honest signer may produce two proposals for a round (wire tap and signing-service tap), including races of QC, TC and timeouts at a collecting leader.",
+             "Sampling; n <= 20 (component), n <= 7 (runs)."),
+    "C10": M("puppet + cluster", "offline pacemaker monitor over round-advance and timeout events vs. certificates held",
+             "Rounds strictly increase and chain; each entry into round r+1 is preceded by a valid QC or TC of round r delivered to or assembled by the node; each timeout's high-QC is at least the QC of any block voted and any QC sent before. Runs include jumps over many rounds, TC-only advances, certificates that arrive only inside timeouts or blocks.",
+             "A certificate counts as held from the moment its frame became readable by the node (permissive)."),
+    "C17": M("component", "arithmetic oracle over an exhaustive sub-range and sampled stake distributions",
+             "Exhaustive for total stake 1..2^24 (quick) / the whole range 1..2^31-1 (thorough) with one authority, sampled for distributions over up to 50 authorities; consensus and mempool committees compared.",
+             "Build has overflow checks on. The distribution space is sampled."),
+    "C18": M("component", "round-trip and negative oracles on honestly generated keys, incl. the node's JSON key / committee files",
+             "Held on the generated cases: every single-bit flip of sampled signatures, all batch positions for sizes 0..40, encodings through base64 / bincode / JSON / files.",
+             "Honest keys only (verify_strict vs. batch verification differ on adversarial keys, outside the property)."),
+    "C19": M("component + puppet + cluster", "reference aggregation model; offline justification monitor for assembled and sent certificates",
+             "Aggregator output compared step by step with a model; at real nodes every assembled certificate must be justified by what was delivered to that node and every sent certificate must be valid, of known origin, and accepted by the other real nodes.",
+             "Sampling of arrival orders and stake distributions."),
+    "C20": M("component", "single-field-difference digest pairs, small-alphabet cross-kind collision search, serialisation round trips",
+             "Held on the generated pairs and the enumerated alphabet; the store/wire sync path is additionally checked byte-for-byte by the C07 monitor.",
+             "Random digests; collision resistance of SHA-512 is assumed."),
+})
 
 NOT_CLAIMED = {}
